@@ -85,10 +85,15 @@ impl<'a> LongChain<'a> {
     /// Insert a [`CowBytes`] into the [`LongChain`] at the given index.
     ///
     /// Note that the index is in terms of the number of [`CowBytes`] instances instead of bytes.
+    /// An empty [`CowBytes`] is not stored.
     #[inline]
     pub fn insert(&mut self, index: usize, cow: CowBytes<'a>) {
         #[cfg(debug_assertions)]
         self.verify_invariants();
+        if cow.is_empty() {
+            // An empty segment would make `chunk` return an empty slice while data remains
+            return;
+        }
         self.total_remaining_len += cow.len();
         self.data.insert(index, cow);
     }
@@ -106,10 +111,16 @@ impl<'a> LongChain<'a> {
     }
 
     /// Push a [`CowBytes`] onto the end of the [`LongChain`].
+    ///
+    /// An empty [`CowBytes`] is not stored.
     #[inline]
     pub fn push(&mut self, cow: CowBytes<'a>) {
         #[cfg(debug_assertions)]
         self.verify_invariants();
+        if cow.is_empty() {
+            // An empty segment would make `chunk` return an empty slice while data remains
+            return;
+        }
         self.total_remaining_len += cow.len();
         self.data.push(cow);
     }
